@@ -458,6 +458,9 @@ fn wrapper_channels_on_text(acc: &mut Acc, name: &str, sname: &str, text: &str, 
 fn check_bytes<T: DeserializeOwned + PartialEq>(acc: &mut Acc, typ: &str, name: &str, doc: &Value) {
     let compact = doc.to_string().into_bytes();
     let first_quote = compact.iter().position(|b| *b == b'"').map(|i| i + 1).unwrap_or(0);
+    // inside the first string *value* (after `":"`) and just before the end of the last string
+    let first_value = compact.windows(3).position(|w| w == b"\":\"").map(|i| i + 3).unwrap_or(first_quote);
+    let last_string_end = compact.iter().rposition(|b| *b == b'"').unwrap_or(first_quote);
     let with = |at: usize, ins: &[u8]| -> Vec<u8> {
         let mut v = compact[..at].to_vec();
         v.extend_from_slice(ins);
@@ -469,6 +472,10 @@ fn check_bytes<T: DeserializeOwned + PartialEq>(acc: &mut Acc, typ: &str, name: 
         ("0xff-inside-a-string", with(first_quote, &[0xff])),
         ("0xc0-0x80-inside-a-string", with(first_quote, &[0xc0, 0x80])),
         ("raw-control-character-inside-a-string", with(first_quote, &[0x01])),
+        ("0xff-inside-the-first-string-value", with(first_value, &[0xff])),
+        ("latin-1-e-acute-inside-the-first-string-value", with(first_value, &[0xe9])),
+        ("truncated-multi-byte-sequence-at-the-end-of-the-last-string", with(last_string_end, &[0xe2, 0x82])),
+        ("0xff-at-the-end-of-the-last-string", with(last_string_end, &[0xff])),
         ("trailing-nul", with(compact.len(), &[0])),
         ("utf16-le", String::from_utf8_lossy(&compact).encode_utf16().flat_map(|u| u.to_le_bytes()).collect()),
         ("lone-high-surrogate-escape", with(first_quote, b"\\ud800")),
@@ -536,6 +543,7 @@ pub fn run(tier: Tier) -> i32 {
     // ---- collect (type tag, name, document)
     let mut jobs: Vec<(&'static str, String, Value)> = vec![];
     let mut jobs_text: Vec<(&'static str, String, String)> = vec![];
+    let mut bytes_jobs: Vec<(&'static str, String, Value)> = vec![];
     for (n, t) in c16::documents(false) {
         let Ok(v) = serde_json::from_str::<Value>(&t) else { continue };
         let is_link = n.starts_with("link/");
@@ -652,6 +660,9 @@ pub fn run(tier: Tier) -> i32 {
             ("PredicateWrapper", preds[0].1.clone()),
         ];
         for (typ, base) in &bases {
+            // bytes that are not text, on these documents always (the strided selection below may or
+            // may not hit a document whose first string is one the decoder does not need)
+            bytes_jobs.push((typ, "representative".to_string(), base.clone()));
             // insertion points: the document itself, and every object one or two levels down
             let mut points: Vec<String> = vec![String::new()];
             if let Some(o) = base.as_object() {
@@ -750,6 +761,25 @@ pub fn run(tier: Tier) -> i32 {
         }
     });
     c.acc.merge(Acc::merge_all(accs));
+    {
+        let mut acc = Acc::new();
+        for (typ, name, doc) in &bytes_jobs {
+            match *typ {
+                "MetadataWrapper" => check_bytes::<MetadataWrapper>(&mut acc, typ, name, doc),
+                "LinkMetadata" => check_bytes::<LinkMetadata>(&mut acc, typ, name, doc),
+                "LayoutMetadata" => check_bytes::<LayoutMetadata>(&mut acc, typ, name, doc),
+                "Metablock" => check_bytes::<Metablock>(&mut acc, typ, name, doc),
+                "Step" => check_bytes::<Step>(&mut acc, typ, name, doc),
+                "Inspection" => check_bytes::<Inspection>(&mut acc, typ, name, doc),
+                "Signature" => check_bytes::<Signature>(&mut acc, typ, name, doc),
+                "PublicKey" => check_bytes::<PublicKey>(&mut acc, typ, name, doc),
+                "ByProducts" => check_bytes::<ByProducts>(&mut acc, typ, name, doc),
+                "PredicateWrapper" => check_bytes::<PredicateWrapper>(&mut acc, typ, name, doc),
+                _ => {}
+            }
+        }
+        c.acc.merge(acc);
+    }
     // repeated members (text and byte channels only)
     {
         let mut acc = Acc::new();
@@ -768,7 +798,7 @@ pub fn run(tier: Tier) -> i32 {
     }
     c.acc.note_n("documents", jobs.len() as u64);
     c.acc.note_n("documents_with_unknown_members", jobs_text.len() as u64);
-    c.rule = format!("documents: all C16 text documents (as MetadataWrapper and as Link/LayoutMetadata), every rule form standalone plus malformed rules, steps, inspections, byproducts, signed blocks, all fixture keys and signatures, C19 predicates and statements (through the wrappers and the typed structs), and node-level mutations of four fixtures (mostly rejected); each in spellings compact / pretty / whitespace-heavy / object members in reverse order / all strings \\u-escaped / one string token escaped at a time (up to {max_tokens} tokens per document) x 15 channels (incl. readers that return short reads and readers that are interrupted before every chunk), plus for MetadataWrapper the channels try_from_bytes / from_bytes / MetablockBuilder::from_raw_metadata; byte inputs that are not text (BOM, invalid UTF-8, raw control character, trailing NUL, UTF-16, lone surrogate) through 7 byte channels on every 23rd document; key ids of 8 wrong shapes wherever a key id is read; texts with one member name twice in an object (top level, nested objects, first array element; the other value first / last) on the 13 text and byte channels and the library's own byte channels; 13 documents x insertion points (top level, nested objects, first array element) x 19 values of a member the models do not know (fractions, exponents, integers beyond 64 bits, -0, null, containers), as text, x 15 channels; links with 70 KB (thorough: and 1.1 MB) of captured output; baseline = from_str on the compact spelling. distinct_nontrivial = (type, document) pairs");
+    c.rule = format!("documents: all C16 text documents (as MetadataWrapper and as Link/LayoutMetadata), every rule form standalone plus malformed rules, steps, inspections, byproducts, signed blocks, all fixture keys and signatures, C19 predicates and statements (through the wrappers and the typed structs), and node-level mutations of four fixtures (mostly rejected); each in spellings compact / pretty / whitespace-heavy / object members in reverse order / all strings \\u-escaped / one string token escaped at a time (up to {max_tokens} tokens per document) x 15 channels (incl. readers that return short reads and readers that are interrupted before every chunk), plus for MetadataWrapper the channels try_from_bytes / from_bytes / MetablockBuilder::from_raw_metadata; byte inputs that are not text (BOM, invalid UTF-8 in a member name / in the first string value / at the end of the last string, raw control character, trailing NUL, UTF-16, lone surrogate) through 7 byte channels on every 23rd document and on one representative document of each of 10 types; key ids of 8 wrong shapes wherever a key id is read; texts with one member name twice in an object (top level, nested objects, first array element; the other value first / last) on the 13 text and byte channels and the library's own byte channels; 13 documents x insertion points (top level, nested objects, first array element) x 19 values of a member the models do not know (fractions, exponents, integers beyond 64 bits, -0, null, containers), as text, x 15 channels; links with 70 KB (thorough: and 1.1 MB) of captured output; baseline = from_str on the compact spelling. distinct_nontrivial = (type, document) pairs");
     c.bound_completed = "complete within the listed documents".into();
     c.assume("serde_json's own parsing is identical across channels for serde_json::Value (the from_value and Json::deserialize channels go through it)");
     c.finish()
